@@ -47,11 +47,14 @@ def main():
         verif.util.error("Improper bin type '%s'" % args.bin_type)
     interval = intervals[0]
 
-    fcst = copy.deepcopy(ifile.fcst)
-    obs = copy.deepcopy(ifile.obs)
-
-    fcst = calculate_window(fcst, args.threshold, interval, leadtimes)
-    obs = calculate_window(obs, args.threshold, interval, leadtimes)
+    # A verif file can have observations only or forecasts only. Compute the
+    # windows of the fields that are there.
+    fields = dict()
+    for name, array in [("fcst", ifile.fcst), ("obs", ifile.obs)]:
+        if array is None:
+            continue
+        array = copy.deepcopy(array)
+        fields[name] = calculate_window(array, args.threshold, interval, leadtimes)
 
     file = netCDF4.Dataset(args.ofile, 'w', format="NETCDF4")
     file.createDimension("leadtime", len(ifile.leadtimes))
@@ -63,14 +66,15 @@ def main():
     vLat = file.createVariable("lat", "f4", ("location",))
     vLon = file.createVariable("lon", "f4", ("location",))
     vElev = file.createVariable("altitude", "f4", ("location",))
-    vfcst = file.createVariable("fcst", "f4", ("time", "leadtime", "location"))
-    vobs = file.createVariable("obs", "f4", ("time", "leadtime", "location"))
+    vfields = dict()
+    for name in fields:
+        vfields[name] = file.createVariable(name, "f4", ("time", "leadtime", "location"))
     file.long_name = ifile.variable.name
     file.units = unit = ifile.variable.units.replace("$", "")
     file.Convensions = "verif_1.0.0"
 
-    vobs[:] = obs
-    vfcst[:] = fcst
+    for name in fields:
+        vfields[name][:] = fields[name]
     vTime[:] = times
     vOffset[:] = leadtimes
     vLocation[:] = locationids
